@@ -88,6 +88,7 @@ def _toggle_nb(s, rng):
 class C14(object):
     id = 'C14'
     level = 'exploration'
+    isolate = False       # the replica servers isolate each run themselves (fork per request)
     selftest = True
     on_hashseed_divergence = 'route'
     rule = ('case = one rule application (binary: category pair + seen-rule set; unary: category + table) evaluated '
@@ -199,7 +200,10 @@ class C14(object):
             line = srv.stdout.readline()
             if not line:
                 raise env.HarnessError('replica interpreter died')
-            got = json.loads(line)['answers']
+            reply = json.loads(line)
+            if 'died' in reply:
+                raise env.HarnessError(f'replica evaluation child died (status {reply["died"]})')
+            got = reply['answers']
             per = {}
             for idx, a in zip(order, got):
                 per.setdefault(idx, []).append(a)
